@@ -11,13 +11,13 @@ import (
 )
 
 var unorderedRangers = map[string]bool{
-	"(google.golang.org/protobuf/reflect/protoreflect.Map).Range":                     true,
-	"(google.golang.org/protobuf/reflect/protoreflect.Message).Range":                 true,
-	"google.golang.org/protobuf/proto.RangeExtensions":                                true,
-	"(*google.golang.org/protobuf/reflect/protoregistry.Files).RangeFiles":            true,
-	"(*google.golang.org/protobuf/reflect/protoregistry.Files).RangeFilesByPackage":   true,
-	"(*google.golang.org/protobuf/reflect/protoregistry.Types).RangeMessages":         true,
-	"(*google.golang.org/protobuf/reflect/protoregistry.Types).RangeExtensions":       true,
+	"(google.golang.org/protobuf/reflect/protoreflect.Map).Range":                   true,
+	"(google.golang.org/protobuf/reflect/protoreflect.Message).Range":               true,
+	"google.golang.org/protobuf/proto.RangeExtensions":                              true,
+	"(*google.golang.org/protobuf/reflect/protoregistry.Files).RangeFiles":          true,
+	"(*google.golang.org/protobuf/reflect/protoregistry.Files).RangeFilesByPackage": true,
+	"(*google.golang.org/protobuf/reflect/protoregistry.Types).RangeMessages":       true,
+	"(*google.golang.org/protobuf/reflect/protoregistry.Types).RangeExtensions":     true,
 	"maps.Keys":   true,
 	"maps.Values": true,
 }
